@@ -575,6 +575,7 @@ def oracle(cls, x, is_root, urns):
     """the property on the implementation alone; returns (failures, xml bytes per urn variant)"""
     fails = []
     out = {}
+    reser = {}
     for uname, urn in urns:
         step = 'to_xml_bytes'
         try:
@@ -588,6 +589,7 @@ def oracle(cls, x, is_root, urns):
                 fails.append(dict(kind='xml', variant=uname, path=p, what=w, _raw=(ra, rb)))
             step = 'to_xml_bytes of the re-parsed structure'
             b2 = to_xml(y, urn, is_root)
+            reser[uname] = b2
             if b2 != b:
                 i = next((k for k in range(min(len(b), len(b2))) if b[k] != b2[k]), min(len(b), len(b2)))
                 fails.append(dict(kind='xml-stability', variant=uname, path=cls.__name__, _raw=(b, b2),
@@ -599,11 +601,11 @@ def oracle(cls, x, is_root, urns):
     # to_xml_bytes(**kw).decode() for the documented keyword forms, and the parse of what to_xml_string() writes
     for uname, urn in urns:
         b = out.get(uname)
-        if b is None:
+        ref = reser.get(uname)
+        if b is None or ref is None or (not is_root and len(b) % 2):       # every top-level instance, every second one of the others
             continue
         try:
             from sarpy.io.xml.base import parse_xml_from_string
-            ref = to_xml(from_xml(cls, b, is_root), urn, is_root)
             root, xml_ns = parse_xml_from_string(b)
             if xml_ns is not None and 'default' in xml_ns:
                 alt = to_xml(cls.from_node(root, xml_ns), urn, is_root)
